@@ -8,6 +8,7 @@ from ..core import FUNC, call_attr, calls_in, const, dotted, is_const, kwarg, no
 from .c09 import waiter_rule, _stored_in_cancelled_table
 
 EXPLANATION = [
+    'C16.shared-state: no class of the anchored modules keeps per-instance state in an object shared by all instances (an empty mutable container or synchronisation object as class-level default that is read through self and not rebound in __init__, or as a dataclass field default); process-wide registries are listed by name.',
     'C16.queued-waiters: a GATT client request that was waiting for the request semaphore when the bearer closed tests, right after obtaining the semaphore and before sending, a flag that Client.on_disconnection sets; the in-flight request is cancelled there (the server-side twin for indications is in C16.pending-indication).',
     'C16.queue-waiters: DataPacketQueue.flush(handle) sets the drained event of the popped per-connection state on every path on which such a state exists (whatever its in-flight count), so a drain() waiting on a closed connection ends (same rule as C04.drain).',
     'C16.pending-indication: Server.on_disconnection cancels the confirmation future it removes, and the indication coroutine\'s `finally` does not re-create an entry for a bearer that is gone.',
@@ -434,9 +435,16 @@ def queue_waiters(ctx):
     """drain() waiters of a data queue are released when their connection is flushed (same rule as C04.drain)."""
     from . import c04
     c04.drain(ctx, rule='C16.queue-waiters')
+    c04.flush_handle(ctx, rule='C16.queue-waiters')
+
+
+def shared_state_rule(ctx):
+    from ..shared_state import shared_state
+    shared_state(ctx, 'C16.shared-state', ['bumble.host', 'bumble.device', 'bumble.gatt_server', 'bumble.gatt_client', 'bumble.l2cap', 'bumble.smp', 'bumble.controller'])
 
 
 RULES = [
+    ('C16.shared-state', shared_state_rule),
     ('C16.queue-waiters', queue_waiters),
     ('C16.queued-waiters', queued_waiters),
     ('C16.pending-indication', pending_indication),
